@@ -474,35 +474,53 @@ let run_trace toks =
   | _ -> failwith "trace"
 
 (* ---- archive level clone: open + fetch + decompress + verify + write ---- *)
+let aclone_tables b hh tab =
+  let f = bytes_of_hex b in
+  let htab0 =
+    if hh = "-" then []
+    else begin
+      let arr = Array.of_list f in
+      let dsize = ref 0 in
+      for i = 13 downto 6 do dsize := (!dsize * 256) + int_of_n arr.(i) done;
+      let offs = 14 + !dsize + 8 in
+      [ (List.filteri (fun i _ -> i < offs) f, bytes_of_hex hh) ]
+    end in
+  (* table entries: payload=hash(payload)=decompressed-or-!=hash(decompressed) *)
+  let entries =
+    if tab = "-" then []
+    else List.map (fun e -> match String.split_on_char '=' e with
+        | [ p; hp; d; hd ] -> (bytes_of_hex p, bytes_of_hex hp, (if d = "!" then None else Some (bytes_of_hex d)), hd)
+        | _ -> failwith "aclone tab") (split_on ';' tab) in
+  let htab = htab0 @ List.concat_map (fun (p, hp, d, hd) ->
+      (p, hp) :: (match d with Some x -> [ (x, bytes_of_hex hd) ] | None -> [])) entries in
+  let decompf (_alg : n) (p : n list) : n list option =
+    match List.find_opt (fun (k, _, _, _) -> k = p) entries with Some (_, _, d, _) -> d | None -> None in
+  (f, htab, decompf)
+
+let pr_clone_out = function
+  | Ok out -> "OK " ^ hex_of_bytes out
+  | Err _ -> "ERR"
+  | Panic _ -> "PANIC"
+  | OutOfFuel -> "FUEL"
+
 let run_aclone toks =
   match toks with
   | [ b; hh; tab ] ->
-      let f = bytes_of_hex b in
-      let htab0 =
-        if hh = "-" then []
-        else begin
-          let arr = Array.of_list f in
-          let dsize = ref 0 in
-          for i = 13 downto 6 do dsize := (!dsize * 256) + int_of_n arr.(i) done;
-          let offs = 14 + !dsize + 8 in
-          [ (List.filteri (fun i _ -> i < offs) f, bytes_of_hex hh) ]
-        end in
-      (* table entries: payload=hash(payload)=decompressed-or-!=hash(decompressed) *)
-      let entries =
-        if tab = "-" then []
-        else List.map (fun e -> match String.split_on_char '=' e with
-            | [ p; hp; d; hd ] -> (bytes_of_hex p, bytes_of_hex hp, (if d = "!" then None else Some (bytes_of_hex d)), hd)
-            | _ -> failwith "aclone tab") (split_on ';' tab) in
-      let htab = htab0 @ List.concat_map (fun (p, hp, d, hd) ->
-          (p, hp) :: (match d with Some x -> [ (x, bytes_of_hex hd) ] | None -> [])) entries in
-      let decompf (_alg : n) (p : n list) : n list option =
-        match List.find_opt (fun (k, _, _, _) -> k = p) entries with Some (_, _, d, _) -> d | None -> None in
-      (match open_and_clone (hash_oracle htab) decompf f with
-       | Ok out -> "OK " ^ hex_of_bytes out
-       | Err _ -> "ERR"
-       | Panic _ -> "PANIC"
-       | OutOfFuel -> "FUEL")
+      let (f, htab, decompf) = aclone_tables b hh tab in
+      pr_clone_out (open_and_clone (hash_oracle htab) decompf f)
   | _ -> failwith "aclone"
+
+(* ---- the whole clone over byte strings: old output scanned in place, seeds scanned, archive ---- *)
+let run_cbytes toks =
+  match toks with
+  | [ b; hh; tab; prior; inpl; seeds; ctab ] ->
+      let (f, htab, decompf) = aclone_tables b hh tab in
+      let extra = if ctab = "-" then [] else List.map (fun e -> match String.split_on_char '=' e with
+          | [ d; h ] -> (bytes_of_hex d, bytes_of_hex h) | _ -> failwith "cbytes tab") (split_on ';' ctab) in
+      let prior = if prior = "-" then [] else bytes_of_hex prior in
+      let seeds = if seeds = "-" then [] else List.map (fun s -> if s = "e" then [] else bytes_of_hex s) (split_on ',' seeds) in
+      pr_clone_out (open_and_clone_bytes (hash_oracle (htab @ extra)) decompf f prior (inpl = "1") seeds)
+  | _ -> failwith "cbytes"
 
 let dispatch (line : string) : string =
   match split_on ' ' line with
@@ -521,6 +539,7 @@ let dispatch (line : string) : string =
   | "compresscli" :: r -> run_compresscli r
   | "cmd" :: r -> run_cmd r
   | "aclone" :: r -> run_aclone r
+  | "cbytes" :: r -> run_cbytes r
   | "trace" :: r -> run_trace r
   | "http" :: r -> run_http r
   | "httpat" :: r -> run_httpat r
